@@ -416,8 +416,11 @@ def run(ctx, rep):
     ew = [f for f in F.fns.values() if f.name == "encode_with_witness" and f.impl_adt == "simplicity::node::Node"]
     if len(ew) != 1:
         rep.anchor("C01.pairing", "Node::encode_with_witness")
-    else:
-        f = ew[0]
+    # every writer of a witness stream (encode_with_witness and any sibling copy of it, e.g. the bit-level RedeemNode::encode)
+    writers = [f for f in F.fns.values() if f.path.startswith("simplicity::") and f.kind in ("Fn", "AssocFn")
+               and f.path != ENC + "encode_witness" and any(cs.name == "encode_witness" for cs in f.calls())]
+    for f in sorted(writers, key=lambda x: x.path):
+        wname = fm.short(f.path)
         T = Terms(f)
         wcall = [cs for cs in f.calls() if cs.name == "encode_witness"]
         pcall = [cs for cs in f.calls() if cs.name == "encode_program"]
@@ -430,16 +433,17 @@ def run(ctx, rep):
                 if cs.name in ("post_order_iter", "rtl_post_order_iter", "pre_order_iter"):
                     ga = cs.name + "::<" + " ".join(cs.f.get("args", [])) + ">"
             if "into_witnesses" in names and it and it[0][2] == "post_order_iter" and "MaxSharing" in ga and vcc.param_roots(t, fm) == {1}:
-                rep.ok("C01.pairing", "witness stream = post_order_iter::<MaxSharing>(self).into_witnesses()", None)
+                rep.ok("C01.pairing", "%s: witness stream = post_order_iter::<MaxSharing>(self).into_witnesses()" % wname, None)
             else:
-                rep.violation("C01.pairing", "encode_with_witness:iter", "the witness stream is %s (%s); the decoder re-attaches values in post order "
-                              "over the maximally shared program" % (show(t)[:120], ga[:100]), wcall[0].where())
+                rep.violation("C01.pairing", "%s:iter" % ("encode_with_witness" if f.name == "encode_with_witness" else wname), "%s: the witness stream is %s (%s); the program is "
+                              "written, and the decoder re-attaches values, in post order over the maximally shared program"
+                              % (wname, show(t)[:120], ga[:100]), wcall[0].where())
             if vcc.param_roots(T.operand(pcall[0].args[0]), fm) == {1}:
-                rep.ok("C01.pairing", "program and witness are encoded from the same node", None)
+                rep.ok("C01.pairing", "%s: program and witness are encoded from the same node" % wname, None)
             else:
-                rep.violation("C01.pairing", "encode_with_witness:program", "encode_program is not applied to self", pcall[0].where())
+                rep.violation("C01.pairing", "%s:program" % wname, "encode_program is not applied to self", pcall[0].where())
         else:
-            rep.violation("C01.pairing", "encode_with_witness:calls", "expected one encode_program and one encode_witness", f.where())
+            rep.violation("C01.pairing", "%s:calls" % wname, "expected one encode_program and one encode_witness", f.where())
     cv = F.fn("simplicity::node::Node::<N>::convert")
     if cv is None:
         rep.anchor("C01.pairing", "Node::convert")
